@@ -58,6 +58,19 @@ fn work(construct: &str, op: &str, n: usize) {
             let r = Rule::parse(&format!("// n\n{}", t));
             std::mem::forget(r);
         }
+        // the same text parsed again and again (whatever a parser remembers between calls must not cost stack)
+        "parse-again" => {
+            for _ in 0..3 {
+                let r = Expr::parse(&t);
+                std::mem::forget(r);
+            }
+        }
+        "parse-rule-again" => {
+            for _ in 0..3 {
+                let r = Rule::parse(&format!("// n\n{}", t));
+                std::mem::forget(r);
+            }
+        }
         "parse-rule-meta" => {
             // the construct inside a metadata constant (only list / map / parens are constants)
             let r = Rule::parse(&format!("// n\n@k: {};\ni1", t));
